@@ -475,7 +475,18 @@ func c14Run(c *Ctx, n int) {
 				modelFlow, docClass = "authn-post-binding", "library:built-inside"
 			case "AuthRedirect":
 				rec := httptest.NewRecorder()
-				req := httptest.NewRequest("GET", "https://sp.example.com/login", nil)
+				// the incoming request is NOT an input of the redirect: parameters and headers it carries (a RelayState /
+				// SAMLRequest / SigAlg of its own, a deep link) must not show up in the Location header
+				reqURL := "https://sp.example.com/login"
+				if k%2 == 1 {
+					reqURL += "?RelayState=from-the-incoming-request&SAMLRequest=AAAA&SigAlg=bogus&Signature=AAAA&next=%2Fdeep%3Fx%3D1"
+				}
+				req := httptest.NewRequest("GET", reqURL, nil)
+				if k%4 == 3 {
+					req = httptest.NewRequest("POST", reqURL, strings.NewReader("RelayState=from-the-request-body&SAMLRequest=BBBB"))
+					req.Header.Set("Content-Type", "application/x-www-form-urlencoded")
+					req.Header.Set("Referer", "https://sp.example.com/app?RelayState=from-the-referer")
+				}
 				err = sp.AuthRedirect(rec, req, relay)
 				if err == nil {
 					if rec.Code != http.StatusFound {
@@ -488,6 +499,11 @@ func c14Run(c *Ctx, n int) {
 				var doc *etree.Document
 				doc, docClass = c14Doc(r, sp, flow)
 				docBytes, _ = doc.WriteToString()
+				// the document may have been built long before it is sent (kept in a session, retried after the IdP was
+				// unreachable): the URL carries the document SUPPLIED, whatever the SP clock says by then
+				if k%3 == 0 {
+					sp.Clock = dsig.NewFakeClockAt(now.Add([]time.Duration{6 * time.Minute, 2 * time.Hour, -time.Hour, 36 * time.Hour}[(k/3)%4]))
+				}
 				switch flow {
 				case "authn-redirect":
 					out, err = sp.BuildAuthURLRedirect(relay, doc)
